@@ -161,12 +161,14 @@ def gen(seed, index, tier):
     addn = 0
     for nm in targets:
         r = rng.random()
+        # a .cap file may end in blank lines or carry further blocks: only its first block counts
+        captail = rng.choice(["", "", "\n", "\n\n", "\nName=A second block\nNumb=9\n", "\n# trailing comment\n"])
         if r < 0.12:
-            spec.append({"p": pre + ".cap/" + nm, "k": "file", "d": "Type=X\n"})
+            spec.append({"p": pre + ".cap/" + nm, "k": "file", "d": rng.choice(["Type=X\n", "Type=X", "Type=-\n"]) + captail})
             caphidden.add(nm)
         elif r < 0.25:
             spec.append({"p": pre + ".cap/" + nm, "k": "file",
-                         "d": "Name=Capped %s\nNumb=%d\n" % (nm, rng.randrange(0, 5))})
+                         "d": "Name=Capped %s\nNumb=%d\n" % (nm, rng.randrange(0, 5)) + captail})
         elif r < 0.37 and lfnames:
             # (a directory may be addressed with a trailing slash)
             sl = "/" if (kinds.get(nm) == "dir" and rng.random() < 0.5) else ""
